@@ -241,3 +241,26 @@ def make_retag(e: Env) -> Callable:
 
     retag.inspected = inspected  # type: ignore[attr-defined]
     return retag
+
+
+# ---------------------------------------------------------------------------------------------
+# the helper that reads the file name off an INCLUDE line, found by role
+# ---------------------------------------------------------------------------------------------
+
+
+def include_filename_func(e) -> tuple[str, bool]:
+    """(qualified name, is_method) of the function Parser.load_includes hands each INCLUDE line to:
+    the resolved callee whose argument is the line variable of the ``enumerate`` loop over the lines."""
+    import ast as _ast
+
+    from .pyfacts import dotted as _dotted
+
+    fn = e.repo.func("parser.Parser.load_includes")
+    line_vars = set()
+    for n in _ast.walk(fn):
+        if isinstance(n, _ast.For) and isinstance(n.iter, _ast.Call) and _dotted(n.iter.func) == "enumerate" and isinstance(n.target, _ast.Tuple) and len(n.target.elts) == 2 and isinstance(n.target.elts[1], _ast.Name):
+            line_vars.add(n.target.elts[1].id)
+    for cs in e.facts.calls["parser.Parser.load_includes"]:
+        if cs.target and cs.target != "parser.Parser.load_includes" and len(cs.node.args) == 1 and isinstance(cs.node.args[0], _ast.Name) and cs.node.args[0].id in line_vars:
+            return cs.target, cs.target.count(".") == 2
+    raise AnalysisError("anchor vanished: the call in load_includes that reads the file name off an INCLUDE line")
